@@ -387,6 +387,28 @@ theorem quaternionProduct_unit (a b : OmplModel.St ℝ)
   obtain ⟨x, y, z, w, he, hn⟩ := quatMul_nrmSq a b
   exact ⟨x, y, z, w, he, by rw [hn, ha, hb]; norm_num⟩
 
+/-- [EX] Finding F77 (unchanged code): with `state == near` the in-place `quaternionProduct` of SO3StateSampler does not
+return a unit quaternion.  Witness: near = (1,0,0,0), perturbation = (0,0,3/5,4/5) — both unit; the aliased product is
+(4/5, -12/25, 0, 0) with squared norm 544/625 (norm ≈ 0.933), while the non-aliased product is unit. -/
+theorem so3_sampler_aliased_not_unit :
+    ∃ a b : OmplModel.St ℝ,
+      nrmSq (St.qx a) (St.qy a) (St.qz a) (St.qw a) = 1 ∧ nrmSq (St.qx b) (St.qy b) (St.qz b) (St.qw b) = 1 ∧
+      quatMulAliased a b = .so3 (4 / 5) (-(12 / 25)) 0 0 ∧ so3Sat (4 / 5 : ℝ) (-(12 / 25)) 0 0 = false := by
+  refine ⟨.so3 1 0 0 0, .so3 0 0 (3 / 5) (4 / 5), ?_, ?_, ?_, ?_⟩
+  · simp [nrmSq_val]
+  · simp only [qx_so3, qy_so3, qz_so3, qw_so3, nrmSq_val]; norm_num
+  · simp only [quatMulAliased, qx_so3, qy_so3, qz_so3, qw_so3]
+    norm_num
+  · have hn : nrmSq (4 / 5 : ℝ) (-(12 / 25)) 0 0 = 544 / 625 := by simp only [nrmSq_val]; norm_num
+    have hlt : Real.sqrt (544 / 625) < 999 / 1000 := by
+      rw [show (999 / 1000 : ℝ) = Real.sqrt ((999 / 1000) ^ 2) from (Real.sqrt_sq (by norm_num)).symm]
+      exact Real.sqrt_lt_sqrt (by norm_num) (by norm_num)
+    unfold so3Sat so3Norm
+    simp only [hn, Num.abs, Num.sqrt, Num.ofNat, Nat.cast_one, eps_val, qErr_val, decide_eq_false_iff_not, not_lt]
+    rw [if_pos (by rw [abs_of_neg (by norm_num)]; norm_num)]
+    rw [abs_of_neg (by linarith)]
+    linarith
+
 /-! ### valid-state samplers `[AF]`
 
 `Validated s s' x c` : among the validity queries recorded between oracle states `s` and `s'` there is one about
